@@ -111,6 +111,23 @@ pub fn run() -> Report {
                 world.files.remove(&50);
                 acc.count("partial-directory:blk-file-of-the-blocks-below-start-missing", 1);
             }
+            // what else a node's index holds: flag records ('F' + name: txindex, prunedblockfiles), the reindex marker 'R', per-file
+            // records 'f', the last-file record 'l', transaction-index records 't' - keys before, between and behind the block
+            // records in key order
+            if i % 2 == 1 {
+                use refmodel::world::IndexOp;
+                world.index_ops.push(IndexOp::Put(b"F\x07txindex".to_vec(), vec![b'1']));
+                world.index_ops.push(IndexOp::Put(b"F\x10prunedblockfiles".to_vec(), vec![b'0']));
+                world.index_ops.push(IndexOp::Put(b"R".to_vec(), vec![b'1']));
+                world.index_ops.push(IndexOp::Put(b"B".to_vec(), vec![0x62; 32]));
+                world.index_ops.push(IndexOp::Put(b"a".to_vec(), vec![b'b'; 40]));
+                world.index_ops.push(IndexOp::Put(b"f\x00\x00\x00\x00".to_vec(), vec![1, 2, 3, 4, 5, 6]));
+                world.index_ops.push(IndexOp::Put(b"l".to_vec(), vec![0, 0, 0, 0]));
+                let mut t = vec![b't'];
+                t.extend_from_slice(&[0x62; 32]);
+                world.index_ops.push(IndexOp::Put(t, vec![0, 8, 9]));
+                acc.count("index-with-flag-reindex-file-and-txindex-records", 1);
+            }
             let mut stale_seed: Option<&str> = None;
             // a once-active, reorganised-away block (fully validated, with data) at exactly the height --end names: which chain is
             // the active one is decided by the real tip, not by what is left after the range was cut
